@@ -78,6 +78,23 @@ def codec_part(spec, acc):
         except Exception:
             acc.add("generator_build_failed")
             continue
+        if c >= 0 and rnd.random() < 0.03:
+            # a message decoded from a frame in which a tag repeats outside any known group carries the decoder's error marker
+            # for that tag: it cannot be represented on the wire and must be refused, not transmitted with the marker spelled out
+            dupframe = fixwire.msg("D", 7, "SND", "TGT", [(11, "x"), (20002, "2"), (20003, "a"), (20004, "b"), (20003, "c"), (20004, "d")])
+            dm, _, _ = codec.decode(dupframe)
+            if dm is not None:
+                for t_ in ("8", "9", "35", "10", "52", "49", "56"):
+                    if t_ in dm:
+                        del dm[t_]
+                dm[43] = "Y"
+                try:
+                    out = codec.encode(dm, sess)
+                    if "RepeatingTagError" in out or "<class" in out:
+                        acc.violation("unrepresentable-message-transmitted", "a decoded message carrying the repeated-tag error marker was encoded: " + out.replace(chr(1), "|")[:200], witness, cid)
+                except Exception as e:
+                    acc.oracle("codec-refusal")
+                    acc.addmap("codec_refusals", "marker:" + type(e).__name__)
         if c >= 0 and rnd.random() < 0.08:
             # first a message the encoder must refuse half-way (PossDup / SequenceReset without a number): whatever it did
             # to the shared codec must not leak into the next frame, which is encoded right below
@@ -151,7 +168,7 @@ async def history(rnd, acc, clock, cid):
             if a in ("send", "send_uni", "send_grp", "send_hb", "send_decl", "send_big", "send_refused"):
                 if a == "send_big":
                     # a frame larger than any buffer size a sender might slice by: every write() must still be whole frames
-                    m = FIXMessage("B", {148: f"big{cnt}", 58: "x" * rnd.choice([4090, 4200, 9000, 20000])})
+                    m = FIXMessage("B", {148: f"big{cnt}", 58: "x" * rnd.choice([4090, 4200, 9000, 20000, 66000, 140000])})
                 elif a == "send_refused":
                     # the encoder refuses these after it has started building the frame; the NEXT frame must be unaffected
                     m = rnd.choice([lambda: FIXMessage("D", {11: f"r{cnt}", 43: "Y"}), lambda: FIXMessage("4", {36: 99, 123: "Y"})])()
